@@ -4,6 +4,8 @@
 //!   take it after calling [`crate::generate`].
 //! * `permute` is an iteration-order seam: it sits wherever a hash container is turned into a
 //!   sequence, and lets a harness choose the order (identity when no script is installed).
+//! * `SeamMap` is the same seam for a `for (k, v) in map.iter()` loop whose iterations are supposed
+//!   to commute: it wraps the map and hands out the entries in the order the harness chooses.
 //! * `state_machine` lets a harness choose the code generator at run time.
 use std::cell::RefCell;
 
@@ -205,4 +207,35 @@ pub fn set_state_machine(choice: Option<bool>) {
 
 pub(crate) fn state_machine(default: bool) -> bool {
     CTL.with(|c| c.borrow().state_machine.unwrap_or(default))
+}
+
+/// A hash map whose `iter()` goes through [`permute`]: for loops over a map whose iterations are
+/// supposed to commute (with the seams off the order is the map's own).
+pub(crate) struct SeamMap<K, V> {
+    site: &'static str,
+    map: std::collections::HashMap<K, V>,
+}
+
+impl<K: std::hash::Hash + Eq + std::fmt::Debug, V: std::fmt::Debug> SeamMap<K, V> {
+    pub(crate) fn new(site: &'static str, map: std::collections::HashMap<K, V>) -> Self {
+        SeamMap { site, map }
+    }
+
+    pub(crate) fn len(&self) -> usize {
+        self.map.len()
+    }
+
+    pub(crate) fn iter(&self) -> std::vec::IntoIter<(&K, &V)> {
+        let mut entries: Vec<(&K, &V)> = self.map.iter().collect();
+        permute(self.site, &mut entries);
+        entries.into_iter()
+    }
+}
+
+impl<K: std::hash::Hash + Eq, V> std::ops::Index<&K> for SeamMap<K, V> {
+    type Output = V;
+
+    fn index(&self, key: &K) -> &V {
+        &self.map[key]
+    }
 }
